@@ -52,6 +52,11 @@ func treeSpec(name string) []treeFile {
 		return []treeFile{{"big/one.txt", "text", 300 * 1024}, {"big/two.bin", "lzbound", 3 << 20}, {"s.txt", "crlf", 100}, {"z/empty", "text", 0}}
 	case "single":
 		return []treeFile{{"only.txt", "text", 12345}}
+	case "names":
+		// awkward names: a regular file that already ends in .knz, several dots, a space, non-ASCII, a
+		// directory ending in .knz, hidden directory and file, an exact multiple of the default block size
+		return []treeFile{{"x.knz", "text", 2000}, {"b.c.d", "text", 1500}, {"sp ace.txt", "xml", 900}, {"\u00fcn\u00ef.txt", "text", 700},
+			{"d.knz/inner.txt", "dna", 3000}, {".hidden/.h2", "text", 64}, {"mult.bin", "random", 65536}, {"UPPER.TXT", "crlf", 333}}
 	}
 	return nil
 }
@@ -764,7 +769,7 @@ var famIOFault = NewFamily("C19.iofault", func(k ioFaultCase) (*Fail, bool) {
 func init() {
 	register("C19", "model_checking", func(c *Ctx) {
 		c19ctx = c
-		c.Rule("real binary built from the current tree. (a) round trips: trees {flat, nested (empty file, empty dir, dot file, sub-directories), single, large} x levels 0..9 and explicit -t/-e/-b/-x option sets x modes {in place with --rm, in place + file-by-file decode, dir -> output dir, file -> file, stdin -> stdout} x jobs {1,4}: full product for the small trees, levels {1,5,8} for the large one. (b) safety: existing output without -f (both directions), output == input via identical path / path alias / symlink / hard link with and without -f, read-only input, failed compression or decompression with --rm keeps the source. (c) crash points: for each --rm run (compress and decompress, -j 1 and -j 4) the syscall history is recorded with strace and EVERY PREFIX is materialised as a model directory state (states = prefixes, transitions = file-system calls); the invariant 'each source exists intact or its output exists and decodes to it (real binary)' is evaluated at every prefix, no call opens an input for writing, and the fully replayed model must equal the real final tree; real SIGKILL injections at every unlinkat of a -j 1 run are checked against the same invariant. (d) I/O faults: the k-th write()/pwrite64() system call (per thread, strace fault injection, ENOSPC; EIO in thorough) of --rm runs in both directions fails, for every k of the fault-free run: afterwards every source exists intact or its counterpart holds exactly what it stands for")
+		c.Rule("real binary built from the current tree. (a) round trips: trees {flat, nested (empty file, empty dir, dot file, sub-directories), single, large, names (a file already ending in .knz, several dots, space, non-ASCII, directory ending in .knz, hidden directory, a file of exactly one block)} x levels 0..9 and explicit -t/-e/-b/-x option sets x modes {in place with --rm, in place + file-by-file decode, dir -> output dir, file -> file, stdin -> stdout} x jobs {1,4}: full product for the small trees, levels {1,5,8} for the large one. (b) safety: existing output without -f (both directions), output == input via identical path / path alias / symlink / hard link with and without -f, read-only input, failed compression or decompression with --rm keeps the source. (c) crash points: for each --rm run (compress and decompress, -j 1 and -j 4) the syscall history is recorded with strace and EVERY PREFIX is materialised as a model directory state (states = prefixes, transitions = file-system calls); the invariant 'each source exists intact or its output exists and decodes to it (real binary)' is evaluated at every prefix, no call opens an input for writing, and the fully replayed model must equal the real final tree; real SIGKILL injections at every unlinkat of a -j 1 run are checked against the same invariant. (d) I/O faults: the k-th write()/pwrite64() system call (per thread, strace fault injection, ENOSPC; EIO in thorough) of --rm runs in both directions fails, for every k of the fault-free run: afterwards every source exists intact or its counterpart holds exactly what it stands for")
 		c.Assume("process kill only (no power loss): bytes passed to write() are in the file; strace -f -y reports every file-system call of the process")
 		if err := buildCLI(); err != nil {
 			c.HarnessError(err.Error())
@@ -809,6 +814,12 @@ func init() {
 							emit(cliCase{Tree: tree, Mode: mode, Opts: o, Jobs: j})
 						}
 					}
+				}
+			}
+			for _, mode := range []string{"inplace-rm", "outdir"} {
+				for _, j := range []int{1, 4} {
+					emit(cliCase{Tree: "names", Mode: mode, Opts: []string{"-l", "2"}, Jobs: j})
+					emit(cliCase{Tree: "names", Mode: mode, Opts: []string{"-t", "lz", "-e", "huffman", "-b", "64k", "--skip"}, Jobs: j})
 				}
 			}
 			for _, l := range pick(c, []string{"1", "5"}, []string{"1", "5", "8"}) {
